@@ -10,6 +10,7 @@ import Verif.Inv.Slots
 import Verif.Props.C20
 import Verif.Model.Loop
 import Verif.Inv.TokInv
+import Verif.Inv.OwnInv
 
 namespace Verif.Props.C06
 open Verif.Token Verif.Slots Verif.Loop
@@ -45,19 +46,28 @@ theorem removal_frame (ss : Slots) (i : Nat) (t : Tok) (h : t.id ≠ i) :
 /-! ### the whole loop -/
 
 /-- **After every history** of operations, callback programs and dispatches — not aborted by a panic, no generation
-    wrapped on the way (`aliased`, finding F12), no source object inserted twice (`dupInsert`, impossible in Rust) —
+    wrapped on the way (`aliased`, finding F12) —
     a registration token the user was handed resolves, if it resolves at all, to the source it was issued for. -/
 theorem token_reaches_only_its_source (ops : List Verif.Loop.Op) (hab : (Verif.Loop.run ops).aborted = false)
-    (hna : (Verif.Loop.run ops).aliased = false) (hnd : (Verif.Loop.run ops).dupInsert = false)
+    (hna : (Verif.Loop.run ops).aliased = false)
     (k : Nat) (tok : Verif.Token.Tok) (d : Nat) (hk : Verif.Loop.alookup (Verif.Loop.run ops).tokens k = some tok)
     (hd : Verif.Loop.slotDisp (Verif.Loop.run ops) tok = some d) : d = k :=
-  Verif.Inv.TokInv.token_reaches_only_its_source ops hab hna hnd k tok d hk hd
+  Verif.Inv.TokInv.token_reaches_only_its_source ops hab hna (Verif.Inv.OwnInv.never_inserted_twice ops hab) k tok d hk hd
 
 /-- … no dispatcher sits in two slots, and the user's token for the occupant of a slot is that slot's own token -/
 theorem occupants_unique_and_known (ops : List Verif.Loop.Op) (hab : (Verif.Loop.run ops).aborted = false)
-    (hna : (Verif.Loop.run ops).aliased = false) (hnd : (Verif.Loop.run ops).dupInsert = false) :
+    (hna : (Verif.Loop.run ops).aliased = false) :
     Verif.Inv.TokInv.U (Verif.Loop.run ops).slots ∧
     Verif.Inv.TokInv.SP (Verif.Loop.run ops).slots (Verif.Loop.run ops).tokens none :=
-  Verif.Inv.TokInv.occupants_unique_and_known ops hab hna hnd
+  Verif.Inv.TokInv.occupants_unique_and_known ops hab hna (Verif.Inv.OwnInv.never_inserted_twice ops hab)
+
+/-- **After every history** not aborted by a panic: no source object was ever inserted while it already sat in a slot
+    (Rust: `insert_source` consumes the value; the model: the `owned` flag) — which is why the theorems above need no
+    hypothesis about it — and whatever sits in a slot is out of the user's hands. -/
+theorem never_inserted_twice (ops : List Verif.Loop.Op) (hab : (Verif.Loop.run ops).aborted = false) :
+    (Verif.Loop.run ops).dupInsert = false ∧
+    ∀ k, Verif.Loop.inSlot (Verif.Loop.run ops) k = true →
+      (Verif.Loop.alookup (Verif.Loop.run ops).srcs k).map (·.owned) = some false :=
+  ⟨Verif.Inv.OwnInv.never_inserted_twice ops hab, fun k h => Verif.Inv.OwnInv.occupant_not_owned ops hab k h⟩
 
 end Verif.Props.C06
